@@ -1739,6 +1739,8 @@ def make_ext_modules(I):
     E["functools"] = {"partial": bi("functools.partial", lambda I, st, a, k: iter([(st, Partial(a[0], a[1:], k))])),
                       "lru_cache": bi("functools.lru_cache", lambda I, st, a, k: iter([(st, a[0] if a else Opaque("lru_cache"))]))}
     E["operator"] = {}
+    # time.time() / perf_counter(): the clock is an arbitrary real number (a fresh unconstrained value per call)
+    E["time"] = {n: bi("time." + n, lambda I, st, a, k: iter([(st, I.fresh("real", "clock"))])) for n in ("time", "perf_counter", "monotonic")}
     E["re"] = {n: re_call(_b.getattr(_re, n), "re." + n) for n in ("compile", "match", "fullmatch", "search", "findall", "sub", "split", "escape")}
     for n in ("IGNORECASE", "I", "MULTILINE", "M", "DOTALL", "S", "VERBOSE", "X"):
         E["re"][n] = int(_b.getattr(_re, n))
